@@ -72,6 +72,10 @@ CLAIMS = {
    text='Partial (duration/capacity skeleton and side-information agreement): the 2.5 ms-multiple test lies on every path to concealment and FEC; the PLC loop and the chunked (>20 ms) concealment hand the frame decoder exactly the remaining capacity at the matching offset (one cursor), add what was produced and report the requested count; the FEC branch is PLC(frame_size-packet_frame_size) plus one frame decoded at exactly that offset, entered only when frame_size >= packet_frame_size; every SILK concealment attenuation factor is in (0,1) and clamp-indexed (interval analysis with the lossCnt >= 0 invariant derived from its writers); <=1-byte payloads go to concealment bounded by the TOC duration; encoder and decoder decide the presence of the mid-only symbol from the same flag (decision tables over side VAD/LBRR flags) in normal, FEC and LBRR-skip contexts; CELT loss counter saturation/reset, bounded rise of the noise floor after an outage, safe energy prediction after loss. Output levels, decay, FEC accuracy and re-convergence are NOT decided (numeric, signal dependent).',
    note=TRUST,
    technique='cursor/budget pattern rules over the CFG (must-pass-through, dominance facts) + decision-table extraction with a resolver + interval abstract interpretation for table indices + table predicates'),
+ 'C12': dict(category='other',
+   text='Partial: (1) no writable static storage / hidden-state libc call - outputs cannot depend on other objects or earlier unrelated calls through globals (the C14 obligations re-evaluated); (2) every init function clears the whole object, with the size query applied to its own arguments, before any other access; (3) no pointer field of any record embedded in a codec state is ever assigned an address derived from the state itself, so a memcpy clone does not alias the original; (4) size query = end of the carve-up used by init (linear normal form) for the Opus encoder/decoder; (5) every reset handler clears exactly from its marker to the end, with the same total as init (size-query arguments must be init-only fields); (6) init and reset agree on every re-derived field; (7) no user setting lies in the cleared region, and every out-of-region field the codec writes and can read across calls (path-sensitive must-define analysis, partitioned by coding mode) is re-established by reset, is a setting, or is a listed exception whose guard is re-checked on every run. Two genuine reset residues found by (7) were repaired. Equality of the outputs of twin objects is NOT decided (run-time).',
+   note=TRUST + 'spec/c12_reset_exceptions.json lists 6 reasoned exceptions, each with a machine-checked guard.',
+   technique='whole-program may-point-to (shared with C14) + dominance / must-define dataflow partitioned by coding mode + linear normal forms of size expressions + sibling agreement init/reset + offset reasoning on record layouts'),
 }
 
 NA_REASON = {
